@@ -375,6 +375,7 @@ func cmdLifecycle(f hx.Flags, r *hx.Result) {
 	if !hx.Stopped() {
 		lcReentrantDestroy(r, false)
 		lcReentrantDestroy(r, true)
+		lcHookEdges(r)
 	}
 }
 
@@ -418,6 +419,100 @@ func lcReentrantDestroy(r *hx.Result, async bool) {
 		r.Violate("log-panic:during-destroy", desc, "logging from an appender's Stop during Destroy panicked: %v %v", p, inner)
 	}
 	log.Destroy()
+	log.VerifReset()
+}
+
+// lcHookEdges: hooks at their edges.  (a) the timestamp hook returns the zero time: that is the event's time;
+// (b) a hook panics once (the caller recovers): the next event gets all its hooks again; (c) a hook logs another
+// event itself: both events get their hooks, each with its own context; (d) the context-fields hook returns one and
+// the same slice (no spare capacity) for every event: it is the hook's, every record shows its fields.
+func lcHookEdges(r *hx.Result) {
+	log.Destroy()
+	log.VerifReset()
+	sys.ResetAppenders()
+	tag, inner := log.RegisterTag("he_tag"), log.RegisterTag("he_inner")
+	cfg := sys.Cfg{}
+	cfg.AddRec("he1")
+	cfg.AddLogger("lg", "Logger", "", "he_tag, he_inner", []sys.Ref{{Ref: "he1"}}, false, nil)
+	if err := log.Refresh(cfg.Map(nil)); err != nil {
+		r.SetInfra("lcHookEdges refresh: %v", err)
+		return
+	}
+	stable := []log.Field{log.String("ck1", "v"), log.Int("ck2", 7)}
+	var cnt [3]map[int64]int
+	for i := range cnt {
+		cnt[i] = map[int64]int{}
+	}
+	idOf := func(ctx context.Context) int64 { id, _ := ctx.Value(ctxKey{}).(int64); return id }
+	fixed := time.Date(2032, 3, 4, 5, 6, 7, 0, time.UTC)
+	log.TimeNow = func(ctx context.Context) time.Time {
+		cnt[0][idOf(ctx)]++
+		if idOf(ctx) == 1 {
+			return time.Time{}
+		}
+		return fixed
+	}
+	log.StringFromContext = func(ctx context.Context) string {
+		cnt[1][idOf(ctx)]++
+		if idOf(ctx) == 2 {
+			panic("hook failure")
+		}
+		return fmt.Sprintf("cs-%d", idOf(ctx))
+	}
+	log.FieldsFromContext = func(ctx context.Context) []log.Field {
+		cnt[2][idOf(ctx)]++
+		if idOf(ctx) == 4 { // this hook logs on its own
+			log.Warn(context.WithValue(context.Background(), ctxKey{}, int64(40)), inner, log.Int("id", 40))
+		}
+		return stable
+	}
+	defer func() { log.TimeNow, log.StringFromContext, log.FieldsFromContext = nil, nil, nil }()
+	emit := func(id int64) any {
+		return hx.Catch(func() {
+			log.Info(context.WithValue(context.Background(), ctxKey{}, id), tag, log.Int("id", id), log.String("own", "x"))
+		})
+	}
+	p1 := emit(1)
+	p2 := emit(2) // panics inside the context-string hook
+	p3 := emit(3)
+	p4 := emit(4) // its context-fields hook logs event 40
+	p5 := emit(5)
+	log.TimeNow, log.StringFromContext, log.FieldsFromContext = nil, nil, nil
+	log.Destroy()
+	r.Eval(6)
+	desc := map[string]any{"scenario": "1: zero time from the hook; 2: context-string hook panics; 3: ordinary; 4: context-fields hook logs event 40; 5: ordinary; one stable context-fields slice throughout"}
+	if p1 != nil || p3 != nil || p4 != nil || p5 != nil || p2 != "hook failure" {
+		r.Violate("log-panic:hooks", desc, "panics of the five calls: %v %v %v %v %v (only the second may panic, with the hook's own value)", p1, p2, p3, p4, p5)
+		return
+	}
+	recs := map[int64]sys.Rec{}
+	n := map[int64]int{}
+	for _, rc := range sys.Appender("he1").Recs() {
+		recs[rc.ID] = rc
+		n[rc.ID]++
+	}
+	for _, id := range []int64{1, 3, 4, 40, 5} {
+		rc, ok := recs[id]
+		wantT := fixed
+		if id == 1 {
+			wantT = time.Time{}
+		}
+		switch {
+		case !ok || n[id] != 1:
+			r.Violate("event-delivery:hook-edges", desc, "event %d was recorded %d times", id, n[id])
+		case cnt[0][id] != 1 || cnt[1][id] != 1 || cnt[2][id] != 1:
+			r.Violate("hook-count:hook-edges", desc, "event %d: time / string / fields hooks ran %d / %d / %d times, want once each", id, cnt[0][id], cnt[1][id], cnt[2][id])
+		case !rc.Time.Equal(wantT) || rc.Time.IsZero() != wantT.IsZero():
+			r.Violate("record-time", desc, "event %d: record time %v, the hook returned %v", id, rc.Time, wantT)
+		case rc.CtxString != fmt.Sprintf("cs-%d", id):
+			r.Violate("record-ctxstring", desc, "event %d: context string %q", id, rc.CtxString)
+		case len(rc.Keys) < 3 || rc.Keys[0] != "ck1" || rc.Keys[1] != "ck2":
+			r.Violate("record-ctxfields", desc, "event %d: record keys %v; the context fields ck1, ck2 come first", id, rc.Keys)
+		}
+	}
+	if stable[0].Key != "ck1" || stable[1].Key != "ck2" {
+		r.Violate("record-ctxfields", desc, "the slice the context-fields hook hands out was modified by the library: %v", []string{stable[0].Key, stable[1].Key})
+	}
 	log.VerifReset()
 }
 
